@@ -27,12 +27,24 @@ SUBSET
   All side conditions of a definition are emitted as `<name>_sideOk : Prop`; the source theorems prove
   `<name>_sideOk` next to the equation, so Python's unbounded subtraction and Lean's truncated one agree wherever the
   code evaluates it.  With an Int operand, subtraction is exact Int subtraction.
+
+ROUND 2 EXTENSIONS (design/translators.md "Round 2")
+  opaque operands : ANY sub-expression whose source text is declared in `binds` is read as that parameter
+               (`'node_id in seen': ('dup', Bool)`, `'cell[0].get_hash(0)': ('h0', Bytes)`).
+  Bytes      : a fourth type (Lean `Bytes` = list of byte values, lean/TonVerif/PyBytes.lean): bytes literals, declared names,
+               `a + b` (concatenation), `x[lo:hi]` / `x[lo:]` / `x[:hi]` with non-negative Nat bounds (Python's clamping slice =
+               `Py.slice`), `x[i]` (-> `Py.byteAt x i` with side condition `i < len(x)`), `len(x)`, `==` / `!=`,
+               `e.to_bytes(w, 'big'|'little')` for e : Nat and a literal w (-> `Py.toBytes big w e`, side condition `e < 256^w`
+               = "no OverflowError"), `int.from_bytes(x, 'big'|'little')` (-> `Py.fromBytes big x`), `n * x` / `x * n` (n : Nat).
+  statements : assignment to a declared Nat/Int input shadows it (`i += 4`); assignment to an attribute (`self.flag = True`)
+               is a local too; a read of a never-assigned attribute is the declared input.
+  selectors  : ('match', PATTERN), ('stmts', FIRST, LAST, RESULT), ('class_attr', NAME) - see `pick`.
 """
 import ast
 
 from .pyexpr import Untranslatable
 
-NAT, INT, PROP = 'Nat', 'Int', 'Prop'
+NAT, INT, PROP, BYTES = 'Nat', 'Int', 'Prop', 'Bytes'
 
 ARITH = {ast.Add: '+', ast.Mult: '*'}
 NATOPS = {ast.FloorDiv: '/', ast.Mod: '%', ast.LShift: '<<<', ast.RShift: '>>>', ast.BitAnd: '&&&', ast.BitOr: '|||',
@@ -47,6 +59,7 @@ class Tr:
         self.raises = raises
         self.params = []              # [(lean name, type)] in order of first use
         self.locals = {}              # let-bound python name -> type
+        self.bool_locals = set()      # locals whose value is a Python bool (carried as Nat 0/1)
         self.path = []                # path condition (list of Lean Props)
         self.side = []                # side conditions (Lean Props, already under their path condition)
         self.notes = []
@@ -57,6 +70,10 @@ class Tr:
         if (name, ty) not in self.params:
             self.params.append((name, ty))
         return (f'({name} = true)' if ty == 'Bool' else name), (PROP if ty == 'Bool' else ty)
+
+    @staticmethod
+    def lname(key):
+        return key.replace('.', '_')
 
     def need(self, cond):
         pc = ' → '.join(self.path + [cond])
@@ -70,12 +87,16 @@ class Tr:
 
     def truth(self, et):
         e, t = et
+        if t == BYTES:
+            return f'({e} ≠ [])'
         return e if t == PROP else f'({e} ≠ 0)'
 
     def unify(self, a, b):
         a, b = self.num(a), self.num(b)
         if a[1] == b[1]:
             return a[0], b[0], a[1]
+        if BYTES in (a[1], b[1]):
+            raise Untranslatable('bytes mixed with a number')
         return self.cast(a), self.cast(b), INT
 
     @staticmethod
@@ -105,7 +126,15 @@ class Tr:
                 return ('True' if e.value else 'False'), PROP
             if isinstance(e.value, int) and e.value >= 0:
                 return str(e.value), NAT
+            if isinstance(e.value, bytes):
+                return '([' + ', '.join(str(b) for b in e.value) + '] : Bytes)', BYTES
             raise Untranslatable(f'constant {e.value!r}')
+        if key in self.locals and isinstance(e, (ast.Name, ast.Attribute)):
+            return self.lname(key), self.locals[key]
+        if key in self.binds and not isinstance(e, (ast.Name, ast.Attribute, ast.Call)):
+            return self.param(key)            # a declared opaque operand
+        if isinstance(e, ast.Subscript):
+            return self.subscript(e)
         if isinstance(e, ast.Name):
             if e.id in self.locals:
                 return e.id, self.locals[e.id]
@@ -134,6 +163,8 @@ class Tr:
             try:
                 for v in e.values:
                     x = self.expr(v)
+                    if x[1] == NAT and ast.unparse(v) in self.bool_locals:
+                        x = (f'({x[0]} ≠ 0)', PROP)          # a local that holds a Python bool (carried as 0/1)
                     if x[1] != PROP:
                         raise Untranslatable('and/or over non-boolean operands')
                     parts.append(x[0])
@@ -142,6 +173,10 @@ class Tr:
             finally:
                 del self.path[len(self.path) - depth:]
             return '(' + conn.join(parts) + ')', PROP
+        if isinstance(e, ast.Compare) and len(e.ops) == 1 and isinstance(e.ops[0], (ast.NotIn, ast.IsNot)):
+            pos = ast.unparse(ast.Compare(left=e.left, ops=[ast.In() if isinstance(e.ops[0], ast.NotIn) else ast.Is()], comparators=e.comparators))
+            if pos in self.binds:         # the negation of a declared opaque truth value
+                return f'(¬ {self.truth(self.param(pos))})', PROP
         if isinstance(e, ast.Compare):
             parts = []
             left = self.expr(e.left)
@@ -150,6 +185,8 @@ class Tr:
                 if sym is None:
                     raise Untranslatable(f'comparison {type(op).__name__}')
                 r = self.expr(right)
+                if BYTES in (left[1], r[1]) and not (left[1] == r[1] and sym in ('=', '≠')):
+                    raise Untranslatable('bytes comparison other than == / != between bytes')
                 if left[1] == PROP and r[1] == PROP and sym in ('=', '≠'):
                     a, b = left[0], r[0]
                     parts.append(f'({a} ↔ {b})' if sym == '=' else f'(¬ ({a} ↔ {b}))')
@@ -176,6 +213,13 @@ class Tr:
     def binop(self, e):
         l, r = self.expr(e.left), self.expr(e.right)
         ty = type(e.op)
+        if ty is ast.Add and l[1] == BYTES and r[1] == BYTES:
+            return f'({l[0]} ++ {r[0]})', BYTES
+        if ty is ast.Mult and {l[1], r[1]} == {BYTES, NAT}:
+            bs, n = (l, r) if l[1] == BYTES else (r, l)
+            return f'(Py.repeatBytes {bs[0]} {n[0]})', BYTES
+        if BYTES in (l[1], r[1]):
+            raise Untranslatable('bytes operand of an arithmetic operator')
         if ty in ARITH:
             a, b, t = self.unify(l, r)
             return f'({a} {ARITH[ty]} {b})', t
@@ -191,8 +235,73 @@ class Tr:
             return f'({a} {NATOPS[ty]} {b})', NAT
         raise Untranslatable(f'operator {ty.__name__}')
 
+    def subscript(self, e):
+        base = self.expr(e.value)
+        if base[1] != BYTES:
+            raise Untranslatable(f'subscript of a non-bytes value {ast.unparse(e)[:60]}')
+        if isinstance(e.slice, ast.Slice):
+            if e.slice.step is not None:
+                raise Untranslatable('slice step')
+            lo = '0' if e.slice.lower is None else self.nat(self.expr(e.slice.lower), 'slice bound')
+            if e.slice.upper is None:
+                return f'(Py.sliceFrom {base[0]} {lo})', BYTES
+            return f'(Py.slice {base[0]} {lo} {self.nat(self.expr(e.slice.upper), "slice bound")})', BYTES
+        i = self.nat(self.expr(e.slice), 'index')
+        self.need(f'{i} < ({base[0]}).length')       # otherwise IndexError
+        return f'(Py.byteAt {base[0]} {i})', NAT
+
+    @staticmethod
+    def _order(node):
+        if isinstance(node, ast.Constant) and node.value in ('big', 'little'):
+            return 'true' if node.value == 'big' else 'false'
+        raise Untranslatable('byte order must be the literal "big" or "little"')
+
+    def bytes_call(self, e):
+        """`e.to_bytes(w, order)` / `int.from_bytes(x, order)`; None = not one of them."""
+        f = e.func
+        if not isinstance(f, ast.Attribute) or f.attr not in ('to_bytes', 'from_bytes'):
+            return None
+        names = ('length', 'byteorder') if f.attr == 'to_bytes' else ('bytes', 'byteorder')
+        args = dict(zip(names, e.args))
+        if len(e.args) > 2:
+            raise Untranslatable(f'{f.attr}: too many positional arguments')
+        for k in e.keywords:
+            if k.arg == 'signed' and isinstance(k.value, ast.Constant) and k.value.value is False:
+                continue
+            if k.arg not in names or k.arg in args:
+                raise Untranslatable(f'{f.attr}: argument {k.arg}')
+            args[k.arg] = k.value
+        if set(args) != set(names):
+            raise Untranslatable(f'{f.attr}: needs {names}')
+        big = self._order(args['byteorder'])
+        if f.attr == 'to_bytes':
+            w = args['length']
+            if not (isinstance(w, ast.Constant) and isinstance(w.value, int) and not isinstance(w.value, bool) and w.value >= 0):
+                raise Untranslatable('to_bytes: the length must be an int literal')
+            v = self.nat(self.expr(f.value), 'to_bytes (unsigned)')
+            self.need(f'{v} < 256 ^ {w.value}')      # otherwise OverflowError
+            return f'(Py.toBytes {big} {w.value} {v})', BYTES
+        if not (isinstance(f.value, ast.Name) and f.value.id == 'int'):
+            return None
+        x = self.expr(args['bytes'])
+        if x[1] != BYTES:
+            raise Untranslatable('int.from_bytes of a non-bytes value')
+        return f'(Py.fromBytes {big} {x[0]})', NAT
+
     def call(self, e, key):
         f = e.func
+        if key in self.binds:
+            return self.param(key)
+        r = self.bytes_call(e)
+        if r is not None:
+            return r
+        if isinstance(f, ast.Name) and f.id == 'len' and len(e.args) == 1 and not e.keywords:
+            try:
+                x = self.expr(e.args[0])
+            except Untranslatable:
+                x = None
+            if x is not None and x[1] == BYTES:
+                return f'({x[0]}).length', NAT
         if e.keywords:
             raise Untranslatable(f'call {key[:60]}')
         if isinstance(f, ast.Attribute) and f.attr == 'bit_length' and not e.args:
@@ -248,28 +357,37 @@ class Tr:
                 return 'True', PROP
             raise Untranslatable('raise')
         if isinstance(s, (ast.Assign, ast.AugAssign)):
+            def target(t):
+                if isinstance(t, ast.Name) or (isinstance(t, ast.Attribute) and isinstance(t.value, ast.Name)):
+                    return ast.unparse(t)
+                raise Untranslatable('assignment target')
             if isinstance(s, ast.Assign):
-                if not (len(s.targets) == 1 and isinstance(s.targets[0], ast.Name)):
+                if len(s.targets) != 1:
                     raise Untranslatable('assignment target')
-                name, val = s.targets[0].id, self.expr(s.value)
+                key, val = target(s.targets[0]), self.expr(s.value)
             else:
-                if not isinstance(s.target, ast.Name):
-                    raise Untranslatable('assignment target')
-                name = s.target.id
-                val = self.expr(ast.BinOp(left=ast.Name(id=name, ctx=ast.Load()), op=s.op, right=s.value))
-            if name in self.binds:
-                raise Untranslatable(f'assignment to the declared input {name}')
+                key = target(s.target)
+                load = ast.parse(key, mode='eval').body
+                val = self.expr(ast.BinOp(left=load, op=s.op, right=s.value))
             v, t = self.num(val)
-            old = self.locals.get(name)
-            self.locals[name] = t
+            (self.bool_locals.add if val[1] == PROP else self.bool_locals.discard)(key)
+            if key in self.binds and key not in self.locals:
+                if self.binds[key][1] == 'Bool':
+                    if t != NAT:
+                        raise Untranslatable(f'assignment of a non-boolean to the declared flag {key}')
+                elif self.binds[key][1] != t and not (self.binds[key][1] == INT and t == NAT):
+                    raise Untranslatable(f'assignment to the declared input {key} changes its type')
+            name = self.lname(key)
+            old = self.locals.get(key)
+            self.locals[key] = t
             # side conditions of the rest mention the local: keep them under the binding
             n0 = len(self.side)
             body = self.block(rest)
             self.side[n0:] = [f'(let {name} : {t} := {v}; {c})' for c in self.side[n0:]]
             if old is None:
-                del self.locals[name]
+                del self.locals[key]
             else:
-                self.locals[name] = old
+                self.locals[key] = old
             return f'(let {name} : {t} := {v}; {body[0]})', body[1]
         if isinstance(s, ast.If):
             c = self.truth(self.expr(s.test))
@@ -288,6 +406,8 @@ def find_def(tree, cls, name):
         if len(cs) != 1:
             raise Untranslatable(f'class {cls} not found')
         body = cs[0].body
+    if name is None:
+        return cs[0]
     fs = [n for n in body if isinstance(n, ast.FunctionDef) and n.name == name]
     if len(fs) != 1:
         raise Untranslatable(f'function {cls}.{name} not found (or defined twice)')
@@ -307,7 +427,14 @@ def pick(fn, how):
        ('raise_if', TEXT)      the test of the only `if c: raise X(..TEXT..)`
        ('early_return',)       the test of the first top-level `if c: ... return`
        ('slice', BASE, 0|1)    lower / upper bound of the only subscript `BASE[lo:hi]` (BASE as source text)
-       ('call_arg', ATTR, i)   i-th positional argument of the only call `<..>.ATTR(...)`"""
+       ('call_arg', ATTR, i)   i-th positional argument of the only call `<..>.ATTR(...)`
+       ('class_attr', NAME)    (fn is a ClassDef) the value of the only class-level `NAME = expr`
+       ('match', PATTERN)      the sub-expression captured by `__X__` in the only place of the function that matches PATTERN
+                               (Python source of one statement / expression; `__ANY..__` = any expression; a final `...` in a
+                               block = any remaining statements); e.g. "if __X__:\n    return"
+       ('stmts', P1, P2, RES)  the consecutive statements (of one block, anywhere in the function) from the only statement
+                               matching pattern P1 through the next one matching P2, followed by `return RES`; RES is Python
+                               source or a nested expression selector such as ('match', PATTERN)"""
     kind = how[0]
     if kind == 'whole':
         return 'block', fn.body
@@ -343,7 +470,88 @@ def pick(fn, how):
         if len(c.args) <= how[2] or c.keywords:
             raise Untranslatable('call shape')
         return 'expr', c.args[how[2]]
+    if kind == 'class_attr':
+        hits = [n for n in fn.body if isinstance(n, ast.Assign) and len(n.targets) == 1 and isinstance(n.targets[0], ast.Name)
+                and n.targets[0].id == how[1]]
+        return 'expr', _one(hits, f'class attribute {how[1]}').value
+    if kind == 'match':
+        pat = _pattern(how[1])
+        hits = []
+        for n in ast.walk(fn):
+            cap = {}
+            if type(n) is type(pat) and _match(pat, n, cap) and 'X' in cap:
+                hits.append(cap['X'])
+        return 'expr', _one(hits, f'match of `{" ".join(how[1].split())[:80]}`')
+    if kind == 'stmts':
+        first, last = _pattern(how[1]), _pattern(how[2])
+        hits = []
+        for lst in _stmt_lists(fn):
+            for i, st in enumerate(lst):
+                if type(st) is type(first) and _match(first, st, {}):
+                    js = [j for j in range(i, len(lst)) if type(lst[j]) is type(last) and _match(last, lst[j], {})]
+                    if js:
+                        hits.append(lst[i:js[0] + 1])
+        stmts = _one(hits, f'statements `{how[1][:40]}` .. `{how[2][:40]}`')
+        if isinstance(how[3], (tuple, list)):       # the result is itself a selected expression of the function (e.g. an `if` test)
+            what, res = pick(fn, tuple(how[3]))
+            if what != 'expr':
+                raise Untranslatable('stmts: the result selector must select an expression')
+        else:
+            res = ast.parse(how[3], mode='eval').body
+        return 'block', list(stmts) + [ast.Return(value=res)]
     raise Untranslatable(f'selector {kind}')
+
+
+def _pattern(text):
+    """A pattern is Python source: a statement or an expression.  `__X__` captures (the selected expression), names starting
+    with `__ANY` match any expression, a statement `...` at the end of a block matches the remaining statements."""
+    body = ast.parse(text).body
+    if len(body) != 1:
+        raise Untranslatable('pattern must be one statement or expression')
+    st = body[0]
+    return st.value if isinstance(st, ast.Expr) else st
+
+
+def _stmt_lists(fn):
+    for n in ast.walk(fn):
+        for f in ('body', 'orelse', 'finalbody'):
+            lst = getattr(n, f, None)
+            if isinstance(lst, list) and lst and isinstance(lst[0], ast.stmt):
+                yield lst
+
+
+def _match(p, n, cap):
+    if isinstance(p, ast.Name) and p.id == '__X__':
+        if not isinstance(n, ast.expr):
+            return False
+        if 'X' in cap and ast.dump(cap['X']) != ast.dump(n):
+            return False
+        cap['X'] = n
+        return True
+    if isinstance(p, ast.Name) and p.id.startswith('__ANY'):
+        return isinstance(n, ast.expr)
+    if type(p) is not type(n):
+        return False
+    for field in p._fields:
+        if field in ('ctx', 'type_comment', 'kind'):
+            continue
+        a, b = getattr(p, field, None), getattr(n, field, None)
+        if isinstance(a, list):
+            if not isinstance(b, list):
+                return False
+            if a and isinstance(a[-1], ast.Expr) and isinstance(a[-1].value, ast.Constant) and a[-1].value.value is Ellipsis:
+                a = a[:-1]
+                if len(b) < len(a):
+                    return False
+                b = b[:len(a)]
+            if len(a) != len(b) or not all(_match(x, y, cap) for x, y in zip(a, b)):
+                return False
+        elif isinstance(a, ast.AST):
+            if not isinstance(b, ast.AST) or not _match(a, b, cap):
+                return False
+        elif a != b:
+            return False
+    return True
 
 
 def translate(fn, lean_name, how, binds, params=None, ret=None, unwrap=(), strip_to_bytes=False, src=''):
@@ -370,6 +578,8 @@ def translate(fn, lean_name, how, binds, params=None, ret=None, unwrap=(), strip
         if ret not in ('Bool', 'raises'):
             raise Untranslatable('boolean result where a number was declared')
         body, ty = f'decide {body}', 'Bool'
+    elif ret == 'Bool' and ty == NAT and what == 'block':
+        body, ty = f'decide ({body} ≠ 0)', 'Bool'      # a flag built by assignments (`x = True`) is carried as 0/1
     elif ret in ('Bool', 'raises'):
         raise Untranslatable('numeric result where a boolean was declared')
     elif ret and ret != ty:
